@@ -530,6 +530,10 @@ structure FontOk (f : VesaFb.Font) : Prop where
   size : f.data.size = 256 * f.bpr * f.gh
   small : f.data.size < 4294967296
 
+/-- non-vacuity: a 9-pixel-wide font with two bytes per row -/
+example : FontOk { gw := 9, gh := 2, bpr := 2, data := Array.replicate 1024 0 } := by
+  constructor <;> simp
+
 /-- bytes stored per pixel by `write8/16/24` and `fill8/16/24` -/
 private def nbytes (c : VesaFb.Cons) : Nat := if c.bpp = 8 then 1 else if c.bpp = 15 ∨ c.bpp = 16 then 2 else 3
 
